@@ -1,11 +1,10 @@
 FRAG = "core:internal/frag"
 
-PROP = {'technique': 'property-based testing (rapid): validity predicate on the splitter, model-based reassembly histories, '
-              'split/permute/reassemble round-trip',
+PROP = {'technique': 'property-based testing (rapid): validity predicate on the splitter, model-based reassembly histories with a hold-to-the-end aliasing oracle, split/permute/reassemble round-trip, send paths against a fake datagram link whose limit may change mid-send with a receiver-side Defragger oracle, and an end-to-end content test over loopback QUIC',
  'level_text': 'Generated-input exploration: tens of thousands of rapid cases per run against an independent size/ceil-division model and '
                'an all-or-nothing reassembly oracle; boundary-biased so the 255/256, budget<=0 and budget=1 corners are hit in every run. '
                'Not a proof: absence of violations on the explored cases only.',
- 'level_note': 'Trusts the harness oracle (written from PROTOCOL.md) and rapid; send paths are exercised with fake udpIO.',
+ 'level_note': 'Trusts the harness oracle (written from PROTOCOL.md) and rapid. Send paths use a fake udpIO/link plus a small real client+server loopback test; packet IDs of concurrently outstanding messages are distinct (precondition of the statement).',
  'rule': 'rapid-generated (payload 1..65535, address 1..2048, limit 0..2000) triples biased to multiples of the budget +-1, limit within '
          '+-3 of the header size and fragment counts 250..262; reassembly histories of 1-4 messages with distinct packet IDs, per-message '
          'permutation with duplicates and drops, merged with bursts and ill-formed fragments. Non-trivial: split into >=2 fragments / more '
